@@ -110,7 +110,7 @@ Fixpoint readings (ops : list op) : list Z :=
   | [] => []
   | Start _ now :: r => now :: readings r
   | Periodic now :: r => now :: readings r
-  | RunPeriod _ t0 wakes :: r => t0 :: map fst wakes ++ readings r
+  | RunPeriod _ t0 wakes :: r => t0 :: map wake_now wakes ++ readings r
   | _ :: r => readings r
   end.
 
@@ -152,8 +152,28 @@ Definition mode_of (e : event) : inst :=
   match e with OnEnable m => m | OnIteration m _ => m | OnDisable m => m end.
 
 (* loop passes of run() that saw "autonomous and enabled" *)
-Fixpoint enabled_prefix (wakes : list (Z * bool)) : list Z :=
+Fixpoint enabled_prefix (wakes : list wake) : list Z :=
   match wakes with
-  | (now, true) :: r => now :: enabled_prefix r
+  | (now, true, _) :: r => now :: enabled_prefix r
   | _ => []
   end.
+
+(* ... of these, the passes up to and including the one during which disable()
+   was called on the selector (by an iter_fn hook or another thread): the passes
+   whose on_iteration the property allows *)
+Fixpoint live_prefix (wakes : list wake) : list Z :=
+  match wakes with
+  | (now, true, dis) :: r => now :: (if dis then [] else live_prefix r)
+  | _ => []
+  end.
+
+(* was disable() called during one of the passes the loop made? *)
+Fixpoint disable_seen (wakes : list wake) : bool :=
+  match wakes with
+  | (_, true, dis) :: r => if dis then true else disable_seen r
+  | _ => false
+  end.
+
+(* nobody calls disable() while the loop of run() is going round *)
+Definition undisturbed (wakes : list wake) : Prop :=
+  Forall (fun w => wake_disable w = false) wakes.
